@@ -23,6 +23,13 @@ theorem parseInt_lt (T : Txt) (signed : Bool) (w : Nat) (t : List Nat) (n : Nat)
         · cases h
       · cases h
   · split at h
+    · cases h
+    · split at h
+      · split at h
+        · cases h; omega
+        · cases h
+      · cases h
+  · split at h
     · next n' _ =>
       cases signed
       · simp only [Bool.false_eq_true, if_false] at h
@@ -35,6 +42,60 @@ theorem parseInt_lt (T : Txt) (signed : Bool) (w : Nat) (t : List Nat) (n : Nat)
         · cases h
     · cases h
 
+theorem jiterDigits_lt (w : Nat) (hw : 4 ≤ w) : ∀ (cs : List Nat) (v n : Nat), v < 2 ^ w → jiterDigits w v cs = some n → n < 2 ^ w := by
+  have h16 : 16 ≤ 2 ^ w := by
+    calc 16 = 2 ^ 4 := by decide
+      _ ≤ 2 ^ w := Nat.pow_le_pow_right (by decide) hw
+  intro cs
+  induction cs with
+  | nil => intro v n hv h; simp only [jiterDigits] at h; cases h; exact hv
+  | cons c cs ih =>
+    intro v n hv h
+    simp only [jiterDigits] at h
+    split at h
+    · next hc =>
+      split at h
+      · split at h
+        · cases h
+        · exact ih _ n (Nat.mod_lt _ (Nat.pow_pos (by decide))) h
+      · next hsafe =>
+        refine ih _ n ?_ h
+        have : v ≤ (2 ^ w - 1) / 10 - 1 := by omega
+        have h10 : (2 ^ w - 1) / 10 * 10 ≤ 2 ^ w - 1 := Nat.div_mul_le_self _ _
+        omega
+    · cases h
+
+theorem jiterUint_lt (w : Nat) (hw : 4 ≤ w) (t : List Nat) (n : Nat) (h : jiterUint w t = some n) : n < 2 ^ w := by
+  have h16 : 16 ≤ 2 ^ w := by
+    calc 16 = 2 ^ 4 := by decide
+      _ ≤ 2 ^ w := Nat.pow_le_pow_right (by decide) hw
+  unfold jiterUint at h
+  split at h
+  · cases h
+  · cases h; omega
+  · cases h
+  · split at h
+    · exact jiterDigits_lt w hw _ _ n (by omega) h
+    · cases h
+
+theorem parseNum_lt (signed : Bool) (w : Nat) (t : List Nat) (n : Nat) (hw : 4 ≤ w)
+    (h : parseNum signed w t = some n) : n < 2 ^ w := by
+  unfold parseNum at h
+  split at h
+  · split at h
+    · cases h
+    · split at h
+      · split at h
+        · cases h
+        · cases h; exact Nat.mod_lt _ (Nat.pow_pos (by decide))
+      · cases h
+  · split at h
+    · next v hv =>
+      split at h
+      · cases h
+      · cases h; exact jiterUint_lt w hw _ _ hv
+    · cases h
+
 /-- what a JSON leaf reader returns conforms and, for bytes / ids, consists of bytes -/
 theorem readLeaf_ok (S : Schema) (T : Txt) (hT : TxtOut T) (he : enumsOk S = true) (ty : Ty) (j : Json) (x : Val)
     (h : readLeaf S T ty j = some x) :
@@ -45,26 +106,32 @@ theorem readLeaf_ok (S : Schema) (T : Txt) (hT : TxtOut T) (he : enumsOk S = tru
     simp only [Option.map_eq_some_iff] at hh
     obtain ⟨n, hn, hx⟩ := hh
     exact ⟨n, hx.symm, parseInt_lt T signed w t n hw hn⟩
+  have hnum2 : ∀ (signed : Bool) (w : Nat) (t : List Nat), 4 ≤ w → (parseNum signed w t).map Val.num = some x →
+      ∃ n, x = .num n ∧ n < 2 ^ w := by
+    intro signed w t hw hh
+    simp only [Option.map_eq_some_iff] at hh
+    obtain ⟨n, hn, hx⟩ := hh
+    exact ⟨n, hx.symm, parseNum_lt signed w t n hw hn⟩
   cases ty <;> simp only [readLeaf] at h
   case u64 =>
-    split at h <;> first | cases h | (obtain ⟨n, hx, hl⟩ := hnum _ _ _ (by decide) h; subst hx; exact ⟨by simp [leafOk, scalarOk]; exact hl, by intro b hb; cases hb⟩)
+    split at h <;> first | cases h | (obtain ⟨n, hx, hl⟩ := hnum _ _ _ (by decide) h; subst hx; exact ⟨by simp [leafOk, scalarOk]; exact hl, by intro b hb; cases hb⟩) | (obtain ⟨n, hx, hl⟩ := hnum2 _ _ _ (by decide) h; subst hx; exact ⟨by simp [leafOk, scalarOk]; exact hl, by intro b hb; cases hb⟩)
   case fixed64 =>
-    split at h <;> first | cases h | (obtain ⟨n, hx, hl⟩ := hnum _ _ _ (by decide) h; subst hx; exact ⟨by simp [leafOk, scalarOk]; exact hl, by intro b hb; cases hb⟩)
+    split at h <;> first | cases h | (obtain ⟨n, hx, hl⟩ := hnum _ _ _ (by decide) h; subst hx; exact ⟨by simp [leafOk, scalarOk]; exact hl, by intro b hb; cases hb⟩) | (obtain ⟨n, hx, hl⟩ := hnum2 _ _ _ (by decide) h; subst hx; exact ⟨by simp [leafOk, scalarOk]; exact hl, by intro b hb; cases hb⟩)
   case i64 =>
-    split at h <;> first | cases h | (obtain ⟨n, hx, hl⟩ := hnum _ _ _ (by decide) h; subst hx; exact ⟨by simp [leafOk, scalarOk]; exact hl, by intro b hb; cases hb⟩)
+    split at h <;> first | cases h | (obtain ⟨n, hx, hl⟩ := hnum _ _ _ (by decide) h; subst hx; exact ⟨by simp [leafOk, scalarOk]; exact hl, by intro b hb; cases hb⟩) | (obtain ⟨n, hx, hl⟩ := hnum2 _ _ _ (by decide) h; subst hx; exact ⟨by simp [leafOk, scalarOk]; exact hl, by intro b hb; cases hb⟩)
   case sfixed64 =>
-    split at h <;> first | cases h | (obtain ⟨n, hx, hl⟩ := hnum _ _ _ (by decide) h; subst hx; exact ⟨by simp [leafOk, scalarOk]; exact hl, by intro b hb; cases hb⟩)
+    split at h <;> first | cases h | (obtain ⟨n, hx, hl⟩ := hnum _ _ _ (by decide) h; subst hx; exact ⟨by simp [leafOk, scalarOk]; exact hl, by intro b hb; cases hb⟩) | (obtain ⟨n, hx, hl⟩ := hnum2 _ _ _ (by decide) h; subst hx; exact ⟨by simp [leafOk, scalarOk]; exact hl, by intro b hb; cases hb⟩)
   case u32 =>
-    split at h <;> first | cases h | (obtain ⟨n, hx, hl⟩ := hnum _ _ _ (by decide) h; subst hx; exact ⟨by simp [leafOk, scalarOk]; exact hl, by intro b hb; cases hb⟩)
+    split at h <;> first | cases h | (obtain ⟨n, hx, hl⟩ := hnum _ _ _ (by decide) h; subst hx; exact ⟨by simp [leafOk, scalarOk]; exact hl, by intro b hb; cases hb⟩) | (obtain ⟨n, hx, hl⟩ := hnum2 _ _ _ (by decide) h; subst hx; exact ⟨by simp [leafOk, scalarOk]; exact hl, by intro b hb; cases hb⟩)
   case fixed32 =>
-    split at h <;> first | cases h | (obtain ⟨n, hx, hl⟩ := hnum _ _ _ (by decide) h; subst hx; exact ⟨by simp [leafOk, scalarOk]; exact hl, by intro b hb; cases hb⟩)
+    split at h <;> first | cases h | (obtain ⟨n, hx, hl⟩ := hnum _ _ _ (by decide) h; subst hx; exact ⟨by simp [leafOk, scalarOk]; exact hl, by intro b hb; cases hb⟩) | (obtain ⟨n, hx, hl⟩ := hnum2 _ _ _ (by decide) h; subst hx; exact ⟨by simp [leafOk, scalarOk]; exact hl, by intro b hb; cases hb⟩)
   case i32 =>
-    split at h <;> first | cases h | (obtain ⟨n, hx, hl⟩ := hnum _ _ _ (by decide) h; subst hx; exact ⟨by simp [leafOk, scalarOk]; exact hl, by intro b hb; cases hb⟩)
+    split at h <;> first | cases h | (obtain ⟨n, hx, hl⟩ := hnum _ _ _ (by decide) h; subst hx; exact ⟨by simp [leafOk, scalarOk]; exact hl, by intro b hb; cases hb⟩) | (obtain ⟨n, hx, hl⟩ := hnum2 _ _ _ (by decide) h; subst hx; exact ⟨by simp [leafOk, scalarOk]; exact hl, by intro b hb; cases hb⟩)
   case s32 =>
-    split at h <;> first | cases h | (obtain ⟨n, hx, hl⟩ := hnum _ _ _ (by decide) h; subst hx; exact ⟨by simp [leafOk, scalarOk]; exact hl, by intro b hb; cases hb⟩)
+    split at h <;> first | cases h | (obtain ⟨n, hx, hl⟩ := hnum _ _ _ (by decide) h; subst hx; exact ⟨by simp [leafOk, scalarOk]; exact hl, by intro b hb; cases hb⟩) | (obtain ⟨n, hx, hl⟩ := hnum2 _ _ _ (by decide) h; subst hx; exact ⟨by simp [leafOk, scalarOk]; exact hl, by intro b hb; cases hb⟩)
   case enum e =>
     split at h
-    · obtain ⟨n, hx, hl⟩ := hnum _ _ _ (by decide) h; subst hx
+    · obtain ⟨n, hx, hl⟩ := hnum2 _ _ _ (by decide) h; subst hx
       exact ⟨by simp [leafOk, scalarOk]; exact hl, by intro b hb; cases hb⟩
     · simp only [Option.map_eq_some_iff, enumByName] at h
       obtain ⟨n, hn, hx⟩ := h
@@ -891,5 +958,70 @@ theorem b64dec_out : ∀ (t b : List Nat), b64dec t = some b → bytesOk b = tru
     · omega
     · omega
     · exact ih1 _ h1
+
+theorem b64Read_out (t b : List Nat) (h : b64Read t = some b) : bytesOk b = true := b64dec_out _ b h
+
+/-! ## ids and base64 as the code does them (round 2, second item): connecting lemmas -/
+theorem stripQuotes_noquote (b : List Nat) (h : b.head? ≠ some 34) : stripQuotes b = b := by
+  unfold stripQuotes
+  have : ¬ (b.length ≥ 2 ∧ b.head? = some 34 ∧ b.getLast? = some 34) := fun hh => h hh.2.1
+  simp [this]
+
+theorem stripQuotes_quoted (x : List Nat) : stripQuotes (34 :: x ++ [34]) = x := by
+  unfold stripQuotes
+  have h1 : (34 :: x ++ [34]).length ≥ 2 := by simp
+  have h2 : (34 :: x ++ [34]).getLast? = some 34 := by
+    rw [show 34 :: x ++ [34] = (34 :: x) ++ [34] from rfl, List.getLast?_append]; simp
+  simp only [h1, h2, List.head?_cons, and_self, if_true]
+  simp
+
+theorem allZero_replicate_true (n : Nat) : allZero (List.replicate n 0) = true := by
+  induction n with
+  | zero => rfl
+  | succ k ih => simpa [allZero, List.replicate_succ] using ih
+
+theorem hexChar_up_ne_quote (n : Nat) : hexUp (hexChar n) ≠ 34 := by
+  unfold hexUp hexChar; split <;> split <;> omega
+
+/-- the model's id reader IS `UnmarshalJSON` followed by the canonical form (zero id ≡ empty) -/
+theorem readLeaf_id_eq (S : Schema) (ffmt : Nat → List Nat) (fparse : List Nat → Option Nat) (n : Nat) (t : List Nat) :
+    readLeaf S (mkTxtF ffmt fparse) (.id n) (.str t)
+      = (idUnmarshalJSON n t).map (fun q => .bytes (if allZero q then [] else q)) := by
+  simp only [readLeaf, idUnmarshalJSON, mkTxtF]
+  by_cases he : (stripQuotes t).isEmpty = true
+  · simp [he, allZero_replicate_true]
+  · simp only [he, Bool.false_eq_true, if_false]
+    by_cases hl : (stripQuotes t).length = 2 * n
+    · have : ¬ (n ≠ (stripQuotes t).length / 2) := by omega
+      simp [hl, this]
+    · by_cases hh : n = (stripQuotes t).length / 2
+      · have hodd : (stripQuotes t).length % 2 = 1 := by omega
+        simp [hl, hh, hexDec_odd _ hodd]
+      · simp [hl, hh]
+
+theorem b64dec_chars : ∀ (t b : List Nat), b64dec t = some b → ∀ c ∈ t, c = 61 ∨ (b64val c).isSome = true := by
+  intro t
+  induction t using b64dec.induct <;> intro b h c hc
+  all_goals (simp_all [b64dec])
+  case case2 => rcases hc with hc | hc | hc <;> first | exact Or.inl hc | (subst hc; simp_all)
+  case case4 => rcases hc with hc | hc | hc | hc <;> first | exact Or.inl hc | (subst hc; simp_all)
+  case case6 =>
+    rename_i ih1
+    rcases hc with hc | hc | hc | hc | hc
+    · subst hc; simp_all
+    · subst hc; simp_all
+    · subst hc; simp_all
+    · subst hc; simp_all
+    · exact ih1 c hc
+
+theorem b64Read_chars (t b : List Nat) (h : b64Read t = some b) : ∀ c ∈ t, c = 10 ∨ c = 13 ∨ c = 61 ∨ (b64val c).isSome = true := by
+  intro c hc
+  by_cases h1 : c = 10
+  · exact Or.inl h1
+  · by_cases h2 : c = 13
+    · exact Or.inr (Or.inl h2)
+    · have : c ∈ t.filter (fun c => c != 10 && c != 13) := by simp [List.mem_filter, hc, h1, h2]
+      exact Or.inr (Or.inr (b64dec_chars _ b h c this))
+
 
 end OtelVerif.C08
